@@ -506,25 +506,40 @@ impl SlabRouter {
             // slab alone and `delete` removes such a key from the metadata slab alone, so an
             // entity id allocated here for it would never be released and `scan` would go on
             // listing the key after its deletion.
+            //
+            // The entity id is allocated before the records are logged (the `EmbeddingSet` record
+            // carries it). When an append fails the put has not happened: an id allocated here for
+            // a key that was not in the index is released again, otherwise `exists` and `scan`
+            // would go on reporting a key that no successful write created.
+            let mut created_entry = false;
             if Self::classify_key(key) == KeyClass::Embedding {
                 if let Some(TensorValue::Vector(embedding)) = value.get("_embedding") {
+                    created_entry = self.index.get(key).is_none();
                     let entity_id = self.index.get_or_create(key);
-                    wal.append(&WalEntry::EmbeddingSet {
+                    if let Err(e) = wal.append(&WalEntry::EmbeddingSet {
                         entity_id,
                         embedding: embedding.clone(),
-                    })
-                    .map_err(|e| {
-                        SlabRouterError::WalError(format!("Failed to log embedding: {e}"))
-                    })?;
+                    }) {
+                        if created_entry {
+                            self.index.remove(key);
+                        }
+                        return Err(SlabRouterError::WalError(format!(
+                            "Failed to log embedding: {e}"
+                        )));
+                    }
                 }
             }
 
             // Log metadata set (sync behavior depends on WalConfig::sync_mode)
-            wal.append(&WalEntry::MetadataSet {
+            if let Err(e) = wal.append(&WalEntry::MetadataSet {
                 key: key.to_string(),
                 data: value.clone(),
-            })
-            .map_err(|e| SlabRouterError::WalError(format!("Failed to log put: {e}")))?;
+            }) {
+                if created_entry {
+                    self.index.remove(key);
+                }
+                return Err(SlabRouterError::WalError(format!("Failed to log put: {e}")));
+            }
         }
 
         // Apply to in-memory state (still under the log mutex)
